@@ -281,6 +281,10 @@ def replay_by_task(dispatch):
         for tt in (t, t[:-1] + (None,)):
             try:
                 rep = dispatch(tt)
+            except Violation as e:
+                if sig is None or sig == 'setup:' + e.what:
+                    return e.what
+                raise
             except Exception as e:  # noqa
                 from .run import library_exception_report
                 rep = library_exception_report(e, tt)
